@@ -157,6 +157,8 @@ type emitEvent struct {
 	Callee  *types.Func // HOLE
 	Builder string      // canonical key of the builder
 	Verb    string      // RAW from a format verb
+	Root    ast.Node    // the call in Func's own body this event belongs to (the outermost in-place helper call, or Call)
+	Frame   string      // in-place call context ("" = written directly in Func)
 }
 
 // eventOcc is one abstract path state reaching an event.
@@ -171,16 +173,17 @@ type eventOcc struct {
 }
 
 type grammar struct {
-	p       *Program
-	events  []*emitEvent
-	byCall  map[*ast.CallExpr][]*emitEvent
-	occs    []*eventOcc
-	exprAll []string // all Expr kinds (minus ParenExpr)
-	kf      []kfRow  //
-	fnDecl  map[*types.Func]*ast.FuncDecl
-	emitFns map[*types.Func]bool // functions taking a *strings.Builder
-	engErrs []string
-	exits   []*eventOcc // EXIT occurrences (success returns and String() hand-offs)
+	p        *Program
+	events   []*emitEvent
+	byCall   map[string][]*emitEvent
+	absorbed map[*types.Func]bool // small helpers without a single node parameter: interpreted in place at every call site
+	occs     []*eventOcc
+	exprAll  []string // all Expr kinds (minus ParenExpr)
+	kf       []kfRow  //
+	fnDecl   map[*types.Func]*ast.FuncDecl
+	emitFns  map[*types.Func]bool // functions taking a *strings.Builder
+	engErrs  []string
+	exits    []*eventOcc // EXIT occurrences (success returns and String() hand-offs)
 }
 
 type grammarClient struct {
@@ -188,6 +191,7 @@ type grammarClient struct {
 	g       *grammar
 	fd      *ast.FuncDecl
 	fn      string
+	eng     *Engine
 	xParam  types.Object // Expr-typed parameter, if any
 	sbParam types.Object
 	kfVar   map[string]bool
@@ -197,7 +201,7 @@ func (p *Program) Grammar() *grammar {
 	if p.gram != nil {
 		return p.gram
 	}
-	g := &grammar{p: p, byCall: map[*ast.CallExpr][]*emitEvent{}, fnDecl: map[*types.Func]*ast.FuncDecl{}, emitFns: map[*types.Func]bool{}}
+	g := &grammar{p: p, byCall: map[string][]*emitEvent{}, absorbed: map[*types.Func]bool{}, fnDecl: map[*types.Func]*ast.FuncDecl{}, emitFns: map[*types.Func]bool{}}
 	p.gram = g
 	pkg := p.PQL
 	info := pkg.TypesInfo
@@ -227,7 +231,11 @@ func (p *Program) Grammar() *grammar {
 			fds = append(fds, fd)
 		}
 	}
+	g.computeAbsorbed()
 	for _, fd := range fds {
+		if g.absorbed[FuncObj(pkg, fd)] {
+			continue // interpreted in place at its call sites
+		}
 		c := &grammarClient{g: g, fd: fd, fn: FuncName(pkg, fd), kfVar: map[string]bool{}}
 		c.sbParam = builderParam(info, fd)
 		for _, f := range fd.Type.Params.List {
@@ -236,6 +244,7 @@ func (p *Program) Grammar() *grammar {
 			}
 		}
 		e := NewEngine(p, pkg, fd, c)
+		c.eng = e
 		init := newState()
 		if c.sbParam != nil {
 			bk := e.objKey(c.sbParam)
@@ -247,6 +256,102 @@ func (p *Program) Grammar() *grammar {
 		}
 	}
 	return g
+}
+
+// nodeParamCount: parameters that carry a syntax-tree node (parser.Expr or an implementation of it).
+func (g *grammar) nodeParamCount(fd *ast.FuncDecl) int {
+	info := g.p.Info
+	iface := g.p.Iface(g.p.Parser, "Expr")
+	n := 0
+	for _, f := range fd.Type.Params.List {
+		t := info.TypeOf(f.Type)
+		if t == nil {
+			continue
+		}
+		if TypeStr(t) == "parser.Expr" || types.Implements(t, iface) {
+			k := len(f.Names)
+			if k == 0 {
+				k = 1
+			}
+			n += k
+		}
+	}
+	return n
+}
+
+// computeAbsorbed: unexported helpers that write SQL text, are not productions over a single node, are small,
+// not self-recursive, and are only ever called directly from function bodies (so every call can be interpreted in place).
+func (g *grammar) computeAbsorbed() {
+	info := g.p.Info
+	type useInfo struct{ calls, other int }
+	uses := map[*types.Func]*useInfo{}
+	for fn := range g.emitFns {
+		uses[fn] = &useInfo{}
+	}
+	for _, pkg := range g.p.All {
+		for _, f := range pkg.Syntax {
+			var litDepth int
+			var visit func(n ast.Node) bool
+			visit = func(n ast.Node) bool {
+				switch x := n.(type) {
+				case *ast.FuncLit:
+					litDepth++
+					ast.Inspect(x.Body, visit)
+					litDepth--
+					return false
+				case *ast.CallExpr:
+					if fn := Callee(info, x); fn != nil && uses[fn] != nil {
+						if litDepth == 0 {
+							uses[fn].calls++
+						} else {
+							uses[fn].other++
+						}
+						// the callee identifier itself is accounted for here
+						for _, a := range x.Args {
+							ast.Inspect(a, visit)
+						}
+						if sel, ok := ast.Unparen(x.Fun).(*ast.SelectorExpr); ok {
+							ast.Inspect(sel.X, visit)
+						}
+						return false
+					}
+				case *ast.Ident:
+					if fn, ok := info.Uses[x].(*types.Func); ok && uses[fn] != nil {
+						uses[fn].other++
+					}
+				}
+				return true
+			}
+			ast.Inspect(f, visit)
+		}
+	}
+	for fn, fd := range g.fnDecl {
+		u := uses[fn]
+		if u == nil || fn.Exported() || u.calls == 0 || u.other > 0 {
+			continue
+		}
+		switch fn.Name() {
+		case "quoteIdentifier", "quoteSQLString":
+			continue // the sanitizers are events of their own
+		}
+		if g.nodeParamCount(fd) == 1 || !smallBody(fd) {
+			continue
+		}
+		self := false
+		ast.Inspect(fd.Body, func(n ast.Node) bool {
+			if call, ok := n.(*ast.CallExpr); ok && Callee(info, call) == fn {
+				self = true
+			}
+			return true
+		})
+		if self {
+			continue
+		}
+		g.absorbed[fn] = true
+		if os.Getenv("PQLCHECK_DEBUG") != "" {
+			fmt.Fprintf(os.Stderr, "grammar: helper %s is interpreted in place\n", fn.FullName())
+		}
+	}
 }
 
 func parseDepth(s string) (d [3]int) {
@@ -287,7 +392,14 @@ func applyDepth(d [3]int, toks []sqlTok) (out [3]int, min int) {
 }
 
 func (c *grammarClient) event(call *ast.CallExpr, idx int, mk func() *emitEvent) *emitEvent {
-	evs := c.g.byCall[call]
+	return c.eventV(call, idx, "", mk)
+}
+
+// eventV: events are identified by (root function, in-place call context, call, index, variant).
+func (c *grammarClient) eventV(call *ast.CallExpr, idx int, variant string, mk func() *emitEvent) *emitEvent {
+	e := c.eng
+	key := fmt.Sprintf("%s|%s|%d|%s", c.fn, e.FrameKey(), call.Pos(), variant)
+	evs := c.g.byCall[key]
 	for len(evs) <= idx {
 		evs = append(evs, nil)
 	}
@@ -297,11 +409,21 @@ func (c *grammarClient) event(call *ast.CallExpr, idx int, mk func() *emitEvent)
 		ev.Func = c.fd
 		ev.FnName = c.fn
 		ev.Call = call
+		ev.Root = call
+		ev.Frame = e.FrameKey()
+		if fr := e.Frames(); len(fr) > 0 {
+			ev.Root = fr[0].Call
+		}
 		c.g.events = append(c.g.events, ev)
 		evs[idx] = ev
 	}
-	c.g.byCall[call] = evs
+	c.g.byCall[key] = evs
 	return evs[idx]
+}
+
+// Inline: helpers that write SQL but are not productions over one node are interpreted in place.
+func (c *grammarClient) Inline(e *Engine, call *ast.CallExpr, callee *types.Func, decl *ast.FuncDecl) bool {
+	return c.g.absorbed[callee]
 }
 
 // kindsOf: the kinds the function's Expr parameter can have in st (with sub-kinds for calls).
@@ -454,19 +576,38 @@ func (c *grammarClient) PreCall(e *Engine, st *State, call *ast.CallExpr, callee
 		if _, isSel := info.Selections[sel]; isSel && isBuilder(info, sel.X) {
 			switch sel.Sel.Name {
 			case "WriteString", "WriteByte", "WriteRune":
-				arg := call.Args[0]
-				if v := constOf(info, arg); v != nil {
-					text := ""
-					if v.Kind() == constant.String {
-						text = constant.StringVal(v)
-					} else if n, ok := constant.Int64Val(constant.ToInt(v)); ok {
-						text = string(rune(n))
+				// the written value, with names looked through and concatenations split into their operands
+				pieces := e.flattenConcat(call.Args[0], nil, 0)
+				for i, arg := range pieces {
+					text, isConst := "", false
+					if v := constOf(info, arg); v != nil {
+						isConst = true
+						if v.Kind() == constant.String {
+							text = constant.StringVal(v)
+						} else if n, ok := constant.Int64Val(constant.ToInt(v)); ok {
+							text = string(rune(n))
+						}
+					} else if f := e.FactOf(st, arg); f != nil && f.HasEq && len(f.Eq) >= 2 && f.Eq[0] == '"' {
+						// a variable that holds one known constant on this path
+						if s, err := strconv.Unquote(f.Eq); err == nil {
+							text, isConst = s, true
+						}
 					}
-					ev := c.event(call, 0, func() *emitEvent { return &emitEvent{Kind: "T", Text: text, Builder: bk} })
-					return c.occ(e, st, ev, bk)
+					if isConst {
+						t := text
+						variant := ""
+						if constOf(info, arg) == nil {
+							variant = "=" + t
+						}
+						ev := c.eventV(call, i, variant, func() *emitEvent { return &emitEvent{Kind: "T", Text: t, Builder: bk} })
+						st = c.occ(e, st, ev, bk)
+						continue
+					}
+					a := arg
+					ev := c.event(call, i, func() *emitEvent { return &emitEvent{Kind: "RAW", Arg: a, Builder: bk} })
+					st = c.occ(e, st, ev, bk)
 				}
-				ev := c.event(call, 0, func() *emitEvent { return &emitEvent{Kind: "RAW", Arg: arg, Builder: bk} })
-				return c.occ(e, st, ev, bk)
+				return st
 			case "Grow":
 				return nil
 			default:
@@ -714,7 +855,7 @@ func (c *grammarClient) rawOrigin(e *Engine, st *State, ev *emitEvent) string {
 		}
 		return "tainted: " + ev.Verb
 	}
-	arg := ast.Unparen(ev.Arg)
+	arg := e.ResolveExpr(ev.Arg)
 	// single byte copied by a sanitizer loop
 	if b, ok := info.TypeOf(arg).Underlying().(*types.Basic); ok && b.Kind() == types.Byte || ok && b.Kind() == types.Uint8 {
 		return "byte of the value being quoted"
@@ -723,7 +864,13 @@ func (c *grammarClient) rawOrigin(e *Engine, st *State, ev *emitEvent) string {
 	if id, ok := arg.(*ast.Ident); ok {
 		obj := objOf(info, id)
 		var def *ast.IndexExpr
-		ast.Inspect(c.fd.Body, func(n ast.Node) bool {
+		scope := ast.Node(c.fd.Body)
+		if obj != nil {
+			if fd := c.g.p.FuncAt(obj.Pos()); fd != nil {
+				scope = fd.Body
+			}
+		}
+		ast.Inspect(scope, func(n ast.Node) bool {
 			as, ok := n.(*ast.AssignStmt)
 			if !ok || len(as.Rhs) != 1 || len(as.Lhs) < 1 || objOf(info, as.Lhs[0]) != obj || obj == nil {
 				return true
